@@ -145,6 +145,46 @@ def nesting_cases(depths):
     return out
 
 
+def typedepth_cases(n):
+    """types with n pairs of brackets (the depth is kept in 16 bits)"""
+    br = b"[]" * n
+    out = []
+    for entry in ("compile", "format", "unchecked"):
+        out.append(case("type:arr:%s:%d" % (entry, n), entry, b"stage S(\n    in  int" + br + b" x,\n    src py \"s\",\n)\n"))
+        out.append(case("type:mapinner:%s:%d" % (entry, n), entry, b"stage S(\n    in  map<int" + br + b"> x,\n    src py \"s\",\n)\n"))
+        out.append(case("type:mapouter:%s:%d" % (entry, n), entry, b"stage S(\n    in  map<int>" + br + b" x,\n    src py \"s\",\n)\n"))
+        out.append(case("type:field:%s:%d" % (entry, n), entry, b"struct T(\n    float" + br + b" f,\n)\n"))
+    return out
+
+
+def graph_cases():
+    """include graphs: cycles of length 1..3, a cycle that does not pass through the top
+    file, cycles with several includers, a missing file, a file included twice, a long chain"""
+    def g(cid, files, top="a.mro"):
+        return case("graph:" + cid, "graph", json.dumps({"files": files, "top": top}).encode())
+    d = lambda n, incs: "".join('@include "%s"\n' % i for i in incs) + "\nfiletype t%s;\n" % n
+    out = [
+        g("self", {"a.mro": d("a", ["a.mro"])}),
+        g("cycle2", {"a.mro": d("a", ["b.mro"]), "b.mro": d("b", ["a.mro"])}),
+        g("cycle3", {"a.mro": d("a", ["b.mro"]), "b.mro": d("b", ["c.mro"]), "c.mro": d("c", ["a.mro"])}),
+        g("cycle_below_top", {"a.mro": d("a", ["b.mro"]), "b.mro": d("b", ["c.mro"]), "c.mro": d("c", ["b.mro"])}),
+        g("cycle_diamond", {"a.mro": d("a", ["b.mro", "d.mro"]), "b.mro": d("b", ["c.mro"]),
+                            "c.mro": d("c", ["a.mro", "d.mro"]), "d.mro": d("d", ["b.mro"])}),
+        g("cycle_subdir", {"a.mro": d("a", ["sub/b.mro"]), "sub/b.mro": d("b", ["../a.mro"])}),
+        g("missing", {"a.mro": d("a", ["nothere.mro"])}),
+        g("twice", {"a.mro": d("a", ["b.mro", "b.mro"]), "b.mro": d("b", [])}),
+        g("diamond_ok", {"a.mro": d("a", ["b.mro", "c.mro"]), "b.mro": d("b", ["d.mro"]), "c.mro": d("c", ["d.mro"]), "d.mro": d("d", [])}),
+        g("duplicate_decl", {"a.mro": d("a", ["b.mro"]), "b.mro": d("a", [])}),
+    ]
+    n = 150
+    chain = {"f%d.mro" % i: d("c%d" % i, ["f%d.mro" % (i + 1)] if i + 1 < n else []) for i in range(n)}
+    out.append(g("chain150", chain, "f0.mro"))
+    chain = dict(chain)
+    chain["f%d.mro" % (n - 1)] = d("c%d" % (n - 1), ["f0.mro"])
+    out.append(g("chain150_cycle", chain, "f0.mro"))
+    return out
+
+
 def write(cases, path):
     with open(path, "w") as f:
         for c in cases:
